@@ -230,6 +230,11 @@ def run_bound1(item):
                 except ValueError:
                     sess.finish()
                     break  # no channel yet at this point: nothing to pre-empt
+                except Exception as e:  # noqa: BLE001
+                    part["violations"].append(core.Violation({"class": "reader_constructor_failed", "exc": type(e).__name__, "bound": 1}, case,
+                                                             "writer at %d: DigitalRFReader(top) raised %r" % (i, e)))
+                    sess.finish()
+                    break
 
                 def advance():
                     if adv == "end":
